@@ -762,3 +762,69 @@ func helperOutcomePasses(cond ssa.Value, taken bool, target func(ssa.Instruction
 	}
 	return n > 0
 }
+
+// valueLeaf: one of the values an expression can take (through φ and helper
+// returns) together with the branch outcomes known where it is chosen.
+type valueLeaf struct {
+	Val   ssa.Value
+	Facts []condFact
+}
+
+func leavesWithFacts(v ssa.Value) []valueLeaf {
+	var out []valueLeaf
+	var walk func(v ssa.Value, facts []condFact, d int)
+	walk = func(v ssa.Value, facts []condFact, d int) {
+		if d > 5 {
+			out = append(out, valueLeaf{v, facts})
+			return
+		}
+		switch x := v.(type) {
+		case *ssa.Phi:
+			for i, e := range x.Edges {
+				pred := x.Block().Preds[i]
+				f := append(append([]condFact{}, facts...), DomFactsX(pred)...)
+				if len(pred.Instrs) > 0 {
+					if ifi, ok := pred.Instrs[len(pred.Instrs)-1].(*ssa.If); ok && pred.Succs[0] != pred.Succs[1] {
+						cc, tt := normCond(ifi.Cond, pred.Succs[0] == x.Block())
+						f = append(f, condFact{cc, tt})
+					}
+				}
+				walk(e, f, d+1)
+			}
+			return
+		case *ssa.Call:
+			if rs := helperReturns(x, 0); rs != nil && singleResult(x) {
+				sc := x.Call.StaticCallee()
+				for _, r := range allReturns(sc) {
+					walk(retResults(r)[0], append(append([]condFact{}, facts...), DomFactsX(r.Block())...), d+1)
+				}
+				return
+			}
+		}
+		out = append(out, valueLeaf{v, facts})
+	}
+	walk(v, nil, 0)
+	return out
+}
+
+func singleResult(call *ssa.Call) bool {
+	_, isTuple := call.Type().(*types.Tuple)
+	return !isTuple
+}
+
+// goTargetsIn: the functions started with `go` inside fn (closures or named).
+func goTargetsIn(fn *ssa.Function) []*ssa.Function {
+	var out []*ssa.Function
+	forEachInstr(fn, func(in ssa.Instruction) {
+		g, ok := in.(*ssa.Go)
+		if !ok {
+			return
+		}
+		if sc := g.Call.StaticCallee(); sc != nil {
+			out = append(out, sc)
+			return
+		}
+		out = append(out, funcValues(g.Call.Value)...)
+	})
+	return out
+}
